@@ -60,6 +60,9 @@ func genTreeText(rt *rapid.T, prefix string, minTips, maxTips int, comments bool
 	rooted := rapid.Bool().Draw(rt, "rooted")
 	lens := rapid.IntRange(0, 2).Draw(rt, "lenmode") // 0 none, 1 all, 2 mixed
 	maxdeg := rapid.IntRange(2, 5).Draw(rt, "maxdeg")
+	if rapid.IntRange(0, 9).Draw(rt, "bigpolytomy") == 0 {
+		maxdeg = 9 // a node with many more neighbours than its parent
+	}
 	var subs []string
 	for i := 0; i < n; i++ {
 		subs = append(subs, prefix+strconv.Itoa(i))
@@ -502,6 +505,13 @@ func applyOp(st *histState, op HOp) (desc string, err error) {
 					break
 				}
 			}
+		}
+		if op.B%7 == 2 && len(groups) > 0 && len(groups[0]) == 3 && op.A%3 != 0 {
+			// a later group anchored on a tip that an earlier group of the same call has just added (not its last one)
+			st.serial++
+			nn := fmt.Sprintf("N%d", st.serial)
+			groups = append(groups, []string{groups[0][1], nn})
+			st.added = append(st.added, nn)
 		}
 		st.groups = groups
 		return fmt.Sprintf("InsertIdenticalTips(%v)", groups), t.InsertIdenticalTips(groups)
